@@ -159,10 +159,10 @@ static int do_act (int tid, const struct act *a, int held, int writer) {
 		case 1:
 			if (!a->timed && note == NULL) { api = "nsync_cv_wait"; RT_OP (api, nsync_cv_wait (cv, &S.mu)); break; }
 			/* fall through */
-		case 0: api = "nsync_cv_wait_with_deadline"; RT_OP_DL (api, a->timed ? rt_ts_ns (dl) : 0, res = nsync_cv_wait_with_deadline (cv, &S.mu, dl, note)); break;
-		case 2: api = "nsync_cv_wait_with_deadline_generic"; RT_OP_DL (api, a->timed ? rt_ts_ns (dl) : 0, res = nsync_cv_wait_with_deadline_generic (cv, &S.mu, writer ? &my_lock : &my_rlock, writer ? &my_unlock : &my_runlock, dl, note)); break;
+		case 0: api = "nsync_cv_wait_with_deadline"; RT_OP_DLS (api, a->timed ? rt_ts_ns (dl) : 0, note == NULL, res = nsync_cv_wait_with_deadline (cv, &S.mu, dl, note)); break;
+		case 2: api = "nsync_cv_wait_with_deadline_generic"; RT_OP_DLS (api, a->timed ? rt_ts_ns (dl) : 0, note == NULL, res = nsync_cv_wait_with_deadline_generic (cv, &S.mu, writer ? &my_lock : &my_rlock, writer ? &my_unlock : &my_runlock, dl, note)); break;
 		default: api = "nsync_cv_wait_with_deadline_generic_mu";
-			RT_OP_DL (api, a->timed ? rt_ts_ns (dl) : 0, res = nsync_cv_wait_with_deadline_generic (cv, &S.mu, writer ? (void (*) (void *)) &nsync_mu_lock : (void (*) (void *)) &nsync_mu_rlock,
+			RT_OP_DLS (api, a->timed ? rt_ts_ns (dl) : 0, note == NULL, res = nsync_cv_wait_with_deadline_generic (cv, &S.mu, writer ? (void (*) (void *)) &nsync_mu_lock : (void (*) (void *)) &nsync_mu_rlock,
 					writer ? (void (*) (void *)) &nsync_mu_unlock : (void (*) (void *)) &nsync_mu_runlock, dl, note)); break;
 		}
 		if (rt_op_sleeps ()) { rt_cover (CV_WAIT_SLEPT); rt_mark_nontrivial (); }
@@ -186,7 +186,7 @@ static int do_act (int tid, const struct act *a, int held, int writer) {
 		dl = mk_deadline (a);
 		leave (writer);
 		if (!a->timed && note == NULL) { api = "nsync_mu_wait"; RT_OP (api, nsync_mu_wait (&S.mu, f, arg, eq)); }
-		else { api = "nsync_mu_wait_with_deadline"; RT_OP_DL (api, a->timed ? rt_ts_ns (dl) : 0, res = nsync_mu_wait_with_deadline (&S.mu, f, arg, eq, dl, note)); }
+		else { api = "nsync_mu_wait_with_deadline"; RT_OP_DLS (api, a->timed ? rt_ts_ns (dl) : 0, note == NULL, res = nsync_mu_wait_with_deadline (&S.mu, f, arg, eq, dl, note)); }
 		if (rt_op_sleeps ()) { rt_cover (CV_WAIT_SLEPT); rt_mark_nontrivial (); }
 		enter (writer, api);
 		check_reason (api, res, a->timed, dl, note);
@@ -207,7 +207,7 @@ static int do_act (int tid, const struct act *a, int held, int writer) {
 		for (i = 0; i < n; i++) pw[i] = &w[i];
 		dl = mk_deadline (a);
 		leave (writer);
-		RT_OP_DL ("nsync_wait_n", a->timed ? rt_ts_ns (dl) : 0, res = nsync_wait_n (&S.mu, writer ? &my_lock : &my_rlock, writer ? &my_unlock : &my_runlock, dl, n, pw));
+		RT_OP_DLS ("nsync_wait_n", a->timed ? rt_ts_ns (dl) : 0, a->note == 0, res = nsync_wait_n (&S.mu, writer ? &my_lock : &my_rlock, writer ? &my_unlock : &my_runlock, dl, n, pw));
 		if (rt_op_sleeps ()) { rt_cover (CV_WAIT_SLEPT); rt_mark_nontrivial (); }
 		enter (writer, "nsync_wait_n");
 		if (res < 0 || res > n) rt_violation ("waitn-result", "range", "nsync_wait_n returned %d for %d objects", res, n);
